@@ -1,11 +1,12 @@
 from .. import facts
 from ..common import Report, finish
-from ..rules import c19
+from ..rules import c19, c19route
 
 RULE = ("(a) every modular sampler (a `modulus` and an RNG parameter) reaches its successful return only through the passing "
         "edge of a branch on `candidate < modulus`, or forwards its modulus to one that does; (b) every "
         "try_random_bits_with_precision owns (or forwards to) a rejecting branch on bit_length, and on bits_precision for "
-        "fixed-width types")
+        "fixed-width types; (c) c19.route: a random constructor of a Montgomery form draws its residue from the random_mod family "
+        "(rejection sampling), not by reducing a full-width random integer")
 
 
 def run(tier, t0):
@@ -13,8 +14,10 @@ def run(tier, t0):
     for cfg in ("all", "default"):
         f = facts.load(cfg)
         c19.run(f, rep, cfg)
+        c19route.run(f, rep, cfg)
     rep.floor("modular_samplers", 5)
     rep.floor("bit_bounded_samplers", 3)
+    rep.floor("random_residue_constructors", 1)
     return finish(rep, tier, t0,
                   explanation="two structural necessary conditions of C19: a rejection sampler that can return without the "
                               "`< modulus` comparison (or through its failing edge) returns out-of-range values; a bit-bounded "
